@@ -236,7 +236,8 @@ class NDNApp:
                              ) -> Coroutine[Any, None, tuple[FormalName, MetaInfo, BinaryStr | None]]:
         final_name = Name.normalize(final_name)
         future = aio.get_running_loop().create_future()
-        if Component.get_type(final_name[-1]) == Component.TYPE_IMPLICIT_SHA256:
+        if (Component.get_type(final_name[-1]) == Component.TYPE_IMPLICIT_SHA256
+                and len(Component.get_value(final_name[-1])) == 32):
             node_name = final_name[:-1]
             implicit_sha256 = Component.get_value(final_name[-1])
         else:
@@ -540,7 +541,8 @@ class NDNApp:
 
     def _on_nack(self, name: FormalName, nack_reason: int):
         # Interests with implicit SHA256 are stored under the name without the digest component
-        if name and Component.get_type(name[-1]) == Component.TYPE_IMPLICIT_SHA256:
+        if (name and Component.get_type(name[-1]) == Component.TYPE_IMPLICIT_SHA256
+                and len(Component.get_value(name[-1])) == 32):
             node_name = name[:-1]
             implicit_sha256 = Component.get_value(name[-1])
         else:
